@@ -75,6 +75,7 @@ class Script:
 
     def run(self):
         d = self.d
+        slots.create_slot(self.slot)  # idempotent: brings the slot's static files (workspace manifest, driver) up to date
         slots.write_case(self.slot, self.case["spec"])
         ok, err = slots.build_app(self.slot)
         if not ok:
@@ -171,7 +172,61 @@ class Script:
                     self.viol("check_verdict_differs_from_normal_run", {"check_said_outdated": outdated, "normal_run_changed_files": changed}, said=outdated)
                 if r["rc"] == 0:
                     self.check_step("check_after_regenerate", expect_outdated=False)
+        if self.case.get("ext"):
+            self.feature_history()
         return "ran"
+
+    def feature_history(self):
+        """Cache history over cargo features: a path dependency outside the workspace (its docs are cached like a third-party
+        crate's) changes a constructor's signature with a feature; off -> on -> off -> on with one cache must reproduce the
+        bytes of the first off / first on run."""
+        d = self.d
+        tdir = os.path.join(os.path.dirname(os.path.abspath(slots.__file__)), "templates", "extdep")
+        ext = os.path.join(d, "extdep")
+        shutil.rmtree(ext, ignore_errors=True)
+        shutil.copytree(tdir, ext)
+        with open(os.path.join(ext, "Cargo.toml")) as f:
+            t = f.read().replace("@REPO@", vlib.REPO)
+        with open(os.path.join(ext, "Cargo.toml"), "w") as f:
+            f.write(t)
+        lib = os.path.join(d, "app", "src", "lib.rs")
+        with open(lib) as f:
+            src = f.read()
+        add = ('\n#[pavex::get(path = "/extdep-probe", id = "H_EXT")]\npub fn h_ext(c: &extdep::ExtClient) -> Response {\n'
+               '    text_response(200, format!("EXT={}", c.with_cfg))\n}\n')
+        head, sep, tail = src.rpartition("    bp\n}")
+        src2 = head + "    bp.constructor(extdep::EXT_CFG);\n    bp.constructor(extdep::EXT_CLIENT);\n    bp.route(H_EXT);\n" + sep + tail + add
+        with open(lib, "w") as f:
+            f.write(src2)
+        seen = {}
+        try:
+            for step, feats in (("features_off_1", []), ("features_on_1", ["extra"]), ("features_off_2", []), ("features_on_2", ["extra"])):
+                toml = e2e_env.APP_TOML + 'extdep = { path = "../extdep", features = [%s] }\n' % ", ".join('"%s"' % x for x in feats)
+                with open(os.path.join(d, "app", "Cargo.toml"), "w") as f:
+                    f.write(toml)
+                ok, err = slots.build_app(self.slot)
+                if not ok:
+                    self.steps.append({"step": step, "generator_bug": err[-400:]})
+                    return
+                self.reset_outputs()
+                r = self.pavexc(step, timeout=1800)
+                if r["rc"] != 0:
+                    self.steps.append({"step": step + "_not_accepted", "stderr": r["stderr"][-600:]})
+                    return
+                key = "on" if feats else "off"
+                sk = shas(snap(d))
+                if key in seen:
+                    for f in ("sdk/Cargo.toml", "sdk/src/lib.rs", "diag.dot"):
+                        if sk[f] != seen[key][f]:
+                            self.viol("cache_dependent_output", {"file": f, "history": "feature_" + key + "_after_other_feature_set"}, file=f, history="cargo_features")
+                else:
+                    seen[key] = sk
+            if seen.get("on") and seen.get("off") and seen["on"]["sdk/src/lib.rs"] == seen["off"]["sdk/src/lib.rs"]:
+                self.steps.append({"step": "feature_history_indistinguishable"})
+        finally:
+            with open(os.path.join(d, "app", "Cargo.toml"), "w") as f:
+                f.write(e2e_env.APP_TOML)
+            shutil.rmtree(ext, ignore_errors=True)
 
     def reset_outputs(self):
         """Put the SDK back to an empty placeholder crate (cargo metadata needs the workspace member to exist) and drop the
@@ -271,10 +326,12 @@ def run(ctx):
     while len(cases) < N_APPS[ctx.tier]:
         rng = random.Random("c10-%d-%d" % (ctx.seed, i))
         i += 1
-        kn = gen.Knobs(avoid_known=True, n_types=(8, 14), n_handlers=(5, 9), n_mws=(3, 7))
+        # many same-kind elements, several fallible singletons, constructors sharing a function name across modules:
+        # the places where iteration order of an unordered table could reach the output
+        kn = gen.Knobs(avoid_known=True, n_types=(8, 14), n_handlers=(5, 9), n_mws=(3, 7), p_modules=0.9, p_fallible_ctor=0.45)
         spec = gen.gen_inclass(rng, kn)
         cases.append({"id": "det-%d-%d" % (ctx.seed, i - 1), "spec": spec, "alt_spec": alt_of(spec, rng), "shape": gen.shape_signature(spec),
-                      "cold": (len(cases) == 0)})
+                      "cold": (len(cases) == 0), "ext": (len(cases) in (1, 2) or ctx.tier == "thorough")})
     lock = threading.Lock()
     results = {}
     import queue
